@@ -177,6 +177,17 @@ type litBuilder struct {
 	maxLen int
 }
 
+// floatBitsTerm: the bit pattern of a float input - the constant the path itself used for bits(f) when
+// there is one (a NaN has many patterns), else z3's fp.to_ieee_bv.
+func (lb *litBuilder) floatBitsTerm(f string) string {
+	if lb.o != nil && lb.o.VC != nil {
+		if b, ok := lb.o.VC.fpBits[f]; ok {
+			return b
+		}
+	}
+	return "(fp.to_ieee_bv " + f + ")"
+}
+
 func (lb *litBuilder) want(t string) { lb.terms = append(lb.terms, strings.Join(strings.Fields(t), " ")) }
 
 func (lb *litBuilder) intOf(t string, s *Sort) (*big.Int, bool) {
@@ -246,6 +257,10 @@ func (lb *litBuilder) valueTerms(v Val, mode Mode) bool {
 			lb.want(v.L[0])
 			return true
 		}
+		if u.Kind() == types.Float64 && len(v.S) == 1 && v.S[0].K == SFP {
+			lb.want(lb.floatBitsTerm(v.L[0]))
+			return true
+		}
 	case *types.Slice:
 		eb, ok := u.Elem().Underlying().(*types.Basic)
 		if !ok || eb.Info()&types.IsInteger == 0 {
@@ -285,6 +300,13 @@ func (lb *litBuilder) valueLit(v Val, mode Mode) (string, bool) {
 				}
 			}
 			return fmt.Sprintf("%s(%q)", types.TypeString(t, relPkg), string(bs)), true
+		}
+		if u.Kind() == types.Float64 && len(v.S) == 1 && v.S[0].K == SFP {
+			n, ok := lb.intOf(lb.floatBitsTerm(v.L[0]), nil)
+			if !ok {
+				return "", false
+			}
+			return fmt.Sprintf("math.Float64frombits(0x%x)", n), true
 		}
 		return lb.scalarLit(t, v.L[0], v.S[0])
 	case *types.Slice:
@@ -352,7 +374,8 @@ func tryReplay(w *World, o *Obligation, dir string) replayResult {
 	if o.Status == "discharged" {
 		return fail("discharged")
 	}
-	if !panicKind(o.Kind) {
+	functional := o.Kind == "ensures" && o.Status == "refuted"
+	if !panicKind(o.Kind) && !functional {
 		return fail("not a panic-class obligation (ghost / functional clause): no concrete witness is constructed")
 	}
 	fn := w.FindFunc(o.RootKey)
@@ -426,6 +449,18 @@ func tryReplay(w *World, o *Obligation, dir string) replayResult {
 		inputsDesc = append(inputsDesc, in.Name+" = "+lit)
 	}
 	rf.Inputs = strings.Join(inputsDesc, "; ")
+	if functional {
+		src, why := functionalReplay(w, o, fn, args)
+		if src == "" {
+			return fail(why)
+		}
+		rf.TestSource = src
+		rf.TestPkg = fn.Pkg.Pkg.Path()
+		out, confirmed := runOverlayTest(w.repo, fn.Pkg.Pkg.Path(), src)
+		rf.TestOutput = truncate(out, 3000)
+		rf.Confirmed = confirmed
+		return replayResult{confirmed, writeReplayFileRF(dir, rf)}
+	}
 	// call expression
 	var call string
 	if fn.Signature.Recv() != nil {
@@ -440,8 +475,11 @@ func tryReplay(w *World, o *Obligation, dir string) replayResult {
 
 import (
 	"fmt"
+	"math"
 	"testing"
 )
+
+var _ = math.IsNaN
 
 // generated by govc from the solver's model of the failed obligation
 // %s
